@@ -1,3 +1,65 @@
 import B6.Driver.Common
-/-! Driver for C02 — stub (the check for this property is not built yet). -/
-def main : IO Unit := B6.Driver.run { σ := Unit, init := (), step := fun s _ _ => (s, .bad) }
+import B6.Driver.C02Common
+import B6.Model.WorldRead
+/-!
+Driver for C02 — three-way differential: Go in-memory world vs Go compact world vs the model.
+
+  `src <feature description>`   answer `-`                 (the features the real OSM source emitted)
+  `build`                       answer `ok ## ok` | `crash` | `hang` | `… err …`
+  `q <query>`                   answer `<in-memory answer> ## <compact answer>`
+  `reset`                       answer `-`                 (next input of the corpus case)
+
+Property predicate on a `q` line: the two Go answers are equal.  When they differ the line is a property
+failure; it carries `class=compact-references-partial` exactly when the query is a `refs`/`rels` query, both
+Go answers are what the model predicts, and the `oneLevel` hypothesis of the `_partial` theorems is false
+for this world and id.  When they agree but differ from the model the line is a `diff`.
+-/
+open B6.Driver B6.Model.WorldRead B6.Driver.C02Common
+namespace B6.Driver.C02
+
+structure St where
+  src : List Feature := []     -- reversed
+  world : Option World := none
+
+def splitAnswers (impl : String) : Option (String × String) :=
+  match impl.splitOn " ## " with
+  | [b, c] => some (b, c)
+  | _ => none
+
+def step (st : St) (op impl : String) : St × Verdict :=
+  match words op with
+  | "src" :: _ =>
+    match parseFeature (sdrop op 4) with
+    | some f => ({ st with src := f :: st.src }, if impl == "-" then .ok else .diff "-")
+    | none => (st, .bad)
+  | ["reset"] => ({}, .ok)
+  | ["build"] =>
+    if impl == "ok ## ok" then ({ st with world := some (build st.src.reverse) }, .ok)
+    else (st, .propfail ("build " ++ impl))
+  | "q" :: key =>
+    match st.world, splitAnswers impl with
+    | some w, some (b, c) =>
+      let mb := answer w true key
+      let mc := answer w false key
+      if b != c then
+        let known :=
+          match key with
+          | [k, x] =>
+            (k == "refs" || k == "rels") && mb == some b && mc == some c &&
+              (match parseId x with
+               | some i => !(oneLevel w i (if k == "rels" then [.relation] else []))
+               | none => false)
+          | _ => false
+        (st, .propfail ((key.headD "?") ++ (if known then " class=compact-references-partial" else "")))
+      else
+        match mb, mc with
+        | some x, some y => (st, if x == b && y == c then .ok else .diff (x ++ " ## " ++ y))
+        | _, _ => (st, if isKnownKey key then .bad else .ok)
+    | _, _ => (st, .bad)
+  | _ => (st, .bad)
+
+def family : Family := { σ := St, init := {}, step := step }
+
+end B6.Driver.C02
+
+def main : IO Unit := B6.Driver.run B6.Driver.C02.family
